@@ -18,6 +18,8 @@ def tasks(run):
     # an earlier model solved with explicit, crude solver options: the options of one solve are not those of the next
     out += [('history', (n_, 40 + i, [(rng.choice(names), rng.randrange(1000), 'solve_crude'), (rng.choice(names), rng.randrange(1000), 'build')]))
             for i, n_ in enumerate(('T_gd_ssc', 'T_prox_convex', 'T_metrics'))]
+    # an earlier copy of the same program failed in the middle of the translation of a malformed hand-written constraint
+    out += [('history', (n_, 60 + i, [(n_, 0, 'fail_translation')])) for i, n_ in enumerate(('T_gd_ssc', 'T_prox_convex', 'T_quadratic', 'T_blocks'))]
     out += [('verbosity', (names[i], 7)) for i in range(0, len(names), 3)]
     out += [('verbosity', ('T_gd_ssc', 5, 'logdet2')), ('verbosity', ('T_metrics', 6, 'logdet3'))]      # the reweighting loop of the heuristic at every verbosity
     out += [('fresh_process', ('T_gd_ssc', 3, 'objects')), ('fresh_process', ('T_blocks', 4, 'objects')), ('fresh_process', ('T_quadratic', 5, 'model'))]
